@@ -174,7 +174,7 @@ def check(run, repo, world):
                     not W.may(n, "yielded"),
                     "%s can be raised after a command has already been sent"
                     % name, where(mod, n))
-    run.floor("write_raw refusal sites", len(pre_raises), 4)
+    run.floor("write_raw refusal sites", len(pre_raises), 4, defer=True)
     for y in ys:
         if not W.must(y.node, "writeable-checked"):
             run.ob("R-MEMW-PRE", "%s#writability-before:%s" % (
@@ -203,6 +203,13 @@ def check(run, repo, world):
                 run.ob("R-MEMW-PRE", Q + "#not-writeable-raises", ok,
                        "a location outside the writable types must raise "
                        "MemoryValueNotWriteable", where(mod, n))
+    sem = _writability_by_member(world, folder, wloops[0]) \
+        if len(wloops) == 1 else None
+    if allowed is None and sem is not None:
+        # not the membership-test form: decided per member of MemoryType by
+        # evaluating the loop body's path conditions (a lookup table, an
+        # if-chain, ... give the same answer)
+        allowed = {m_ for m_, (refused, unl) in sem.items() if not refused}
     run.ob("R-MEMW-PRE", Q + "#writable-types", allowed == RW_TYPES,
            "writable memory types are %s, expected %s" % (
                sorted(allowed) if allowed else None, sorted(RW_TYPES)),
@@ -225,6 +232,9 @@ def check(run, repo, world):
                 if l == "T" and m.kind == "stmt" and unparse(m.ast) == \
                         "unlock_required = True":
                     ok = True
+    if not ok and sem is not None:
+        ok = {m_ for m_, (refused, unl) in sem.items()
+              if unl and not refused} == {"NVM_RW_L"}
     run.ob("R-MEMW-LOCK", Q + "#lockable-needs-unlock", ok,
            "a lockable (NVM_RW_L) location must set unlock_required",
            where(mod, fn))
@@ -821,3 +831,91 @@ def _check_value_to_raw(run, repo, world, mod):
     run.ob("R-MEMW-RAW", LOC + ".StringValue.write#short-write", okw,
            "StringValue.write must force allow_short_write and delegate",
            where(mod, fnw))
+
+
+def _writability_by_member(world, folder, wloop):
+    """{member name: (refused, sets unlock_required)} for every member of
+    MemoryType, from the path summaries of the writability loop's body with
+    the location's type fixed to that member (conditions folded; a local
+    bound to a table lookup resolved).  None when a condition cannot be
+    folded."""
+    from .. import paths, astq
+    from ..inline import acopy
+    loop = wloop.ast
+    if not isinstance(loop.target, ast.Name):
+        return None
+    var = loop.target.id
+    stub = ast.FunctionDef(name="body", args=ast.arguments(
+        posonlyargs=[], args=[ast.arg("cls"), ast.arg(var)], kwonlyargs=[],
+        kw_defaults=[], defaults=[]), body=[acopy(x) for x in loop.body],
+        decorator_list=[], returns=None, type_comment=None, type_params=[])
+    ast.fix_missing_locations(stub)
+    try:
+        ps = paths.summaries(stub)
+    except paths.Unsupported:
+        return None
+    defs = astq._defs(stub)
+    mt = world.cls(LOC + ".MemoryType")
+    if mt is None:
+        return None
+    members = list(folder.enum_members(mt).keys())
+    out = {}
+    for mname in members:
+        class S(ast.NodeTransformer):
+            def visit_Attribute(self, n):
+                if isinstance(n.ctx, ast.Load) and unparse(n) == \
+                        var + ".type_":
+                    return ast.copy_location(ast.Attribute(
+                        ast.Name("MemoryType", ast.Load()), mname,
+                        ast.Load()), n)
+                return self.generic_visit(n)
+
+        def val(e):
+            e2 = astq.resolve(stub, e, defs=defs, calls=True)
+            e2 = ast.fix_missing_locations(S().visit(acopy(e2)))
+            # T.get(K): folded by hand (the folder does not call methods)
+            class G(ast.NodeTransformer):
+                def visit_Call(self, n):
+                    self.generic_visit(n)
+                    if isinstance(n.func, ast.Attribute) and \
+                            n.func.attr == "get" and 1 <= len(n.args) <= 2:
+                        t = folder.eval(n.func.value, {}, LOC)
+                        k = folder.eval(n.args[0], {}, LOC)
+                        if isinstance(t, dict) and k is not UNKNOWN:
+                            hit = [v for kk, v in t.items() if kk == k or (
+                                isinstance(kk, EnumMember) and isinstance(
+                                    k, EnumMember) and kk.name == k.name)]
+                            if hit:
+                                v = hit[0]
+                            elif len(n.args) == 2:
+                                return n.args[1]
+                            else:
+                                v = None
+                            if v is None or type(v) in (bool, int, str):
+                                return ast.copy_location(ast.Constant(v), n)
+                    return n
+            e2 = ast.fix_missing_locations(G().visit(e2))
+            return folder.eval(e2, {}, LOC)
+        refused = unl = False
+        feasible = 0
+        for p_ in ps:
+            okp = True
+            for (t, b) in p_.conds:
+                v = val(t)
+                if v is UNKNOWN:
+                    return None
+                if bool(v) != b:
+                    okp = False
+                    break
+            if not okp:
+                continue
+            feasible += 1
+            if p_.kind == "raise":
+                refused = True
+            uv = (p_.env or {}).get("unlock_required")
+            if isinstance(uv, ast.Constant) and uv.value is True:
+                unl = True
+        if feasible != 1:
+            return None
+        out[mname] = (refused, unl)
+    return out
